@@ -106,6 +106,8 @@ PATS = {
     "tup": ("(p{i}a, p{i}b)", "(i64, i64)"), "ts1": ("N(p{i})", "N"), "refpat": ("&p{i}", "&i64"), "raw": ("r#match", "i64"),
     "at": ("p{i} @ _", "i64"), "slice": ("[p{i}a, p{i}b]", "[i64; 2]"),
 }
+OPTLIST = ["no_deps", "export", "unimock", "mockall", "mock_api = M", "?Send", "unimock = false", "mockall = false", "export = false",
+           "delegate_by = ref", "debug = false"]
 RECVS = {"norecv": "", "val": "self", "mutref": "&mut self"}
 DELEG = {
     "default": "",
@@ -130,6 +132,16 @@ def enumerate_states(tier):
         for w in ws:
             states.append(dict(key="a_%s_%s" % (item, "_".join(map(str, w)) or "e"), kind="attr", item=item, word=list(w)))
         transitions += len(ws) - 1
+    # well-formed option LISTS (longer than the token words reach): every ordered selection of <= 2 (3) options after a trait name
+    import itertools as _it
+    for k in range(1, (3 if tier == "thorough" else 2) + 1):
+        for sel in _it.permutations(range(len(OPTLIST)), k):
+            for item in ITEMS:
+                for variant in ("entrait", "entrait_export"):
+                    lead = "Foo, " if item in ("fn", "mod") else ""
+                    states.append(dict(key="o_%s_%s_%s" % (item, "_".join(map(str, sel)), "x" if variant == "entrait_export" else "e"), kind="attr", item=item,
+                                       word=[], text=lead + ", ".join(OPTLIST[i] for i in sel), variant=variant))
+                    transitions += 1
     for name, attr, lines, msg, line in MISUSE:
         for variant in ("entrait", "entrait_export"):
             states.append(dict(key="u_%s_%s" % (name.replace("-", "_"), "x" if variant == "entrait_export" else "e"),
@@ -190,7 +202,7 @@ def render(s):
     if s["kind"] == "attr":
         if s["item"] == "impl":
             L.append("    pub struct X;")
-        L.append("    #[::entrait::entrait(%s)]" % " ".join(TOKENS[i] for i in s["word"]))
+        L.append("    #[::entrait::%s(%s)]" % (s.get("variant", "entrait"), s["text"] if "text" in s else " ".join(TOKENS[i] for i in s["word"])))
         L.append("    " + ITEMS[s["item"]])
     elif s["kind"] == "misuse":
         name, attr, lines, msg, line = next(m for m in MISUSE if m[0] == s["name"])
@@ -292,7 +304,7 @@ def evaluate(states, report, tier):
             seen.add(sig)
             tags = {"kind:" + s["kind"]}
             if s["kind"] == "attr":
-                tags |= {"item:" + s["item"]} | {"tok:" + TOKENS[i] for i in s["word"]}
+                tags |= {"item:" + s["item"]} | {"tok:" + TOKENS[i] for i in s["word"]} | ({"optlist:" + s["text"]} if "text" in s else set())
             elif s["kind"] == "misuse":
                 tags |= {"case:" + s["name"]}
             elif s["kind"] == "sigseq":
